@@ -1,11 +1,10 @@
 /-
 Model of `dereplicate_indels` (`src/skalo/process_indels.rs`): the indel groups
 (keyed by entry and exit k-mer) are sorted by total path length, ties broken by
-the entry k-mer, and kept greedily: a group is kept unless its entry k-mer was
-already recorded as an extremity (entry, exit or their reverse complements) of a
-kept group.  The Rust iterates a hash map before the stable sort, so the order of
-two groups with equal (length, entry) is not defined; the model takes the list
-order there and the correspondence check only feeds tie-free inputs.
+the entry and then the exit k-mer, and kept greedily: a group is kept unless its
+entry k-mer was already recorded as an extremity (entry, exit or their reverse
+complements) of a kept group.  The sort key is total on the keys of a map, so the
+hash-map order in which the groups arrive does not matter (`T18_derep_order`).
 -/
 import SkaModel.Impl.Bits
 
@@ -18,9 +17,9 @@ structure IndelGroup where
   len : Nat
   deriving Repr, DecidableEq
 
-/-- `a.1.cmp(&b.1).then_with(|| a.0.0.cmp(&b.0.0))` as "not greater" -/
+/-- `a.1.cmp(&b.1).then_with(|| a.0.0.cmp(&b.0.0)).then_with(|| a.0.1.cmp(&b.0.1))` as "not greater" -/
 def derepLe (a b : IndelGroup) : Bool :=
-  a.len < b.len || (a.len == b.len && a.entry ≤ b.entry)
+  a.len < b.len || (a.len == b.len && (a.entry < b.entry || (a.entry == b.entry && a.exit ≤ b.exit)))
 
 /-- the four k-mers recorded for a kept group -/
 def extremities (W k : Nat) (g : IndelGroup) : List Nat :=
